@@ -483,6 +483,28 @@ fn run_op(db: &mut FixtureDatabase, op: &Value) -> Value {
                    "skip_plugins": c.skip_plugins})
         }
         "scope_parse" => json!(FixtureScope::parse(s(op, "text")).map(scope_str)),
+        // the real glob crate as an oracle: which of the paths does some pattern match
+        "glob_matches" => {
+            let pats: Vec<glob::Pattern> = op
+                .get("patterns")
+                .and_then(|v| v.as_array())
+                .map(|a| {
+                    a.iter()
+                        .filter_map(|x| x.as_str())
+                        .filter_map(|x| glob::Pattern::new(x).ok())
+                        .collect()
+                })
+                .unwrap_or_default();
+            let paths: Vec<&str> = op
+                .get("paths")
+                .and_then(|v| v.as_array())
+                .map(|a| a.iter().filter_map(|x| x.as_str()).collect())
+                .unwrap_or_default();
+            json!(paths
+                .iter()
+                .map(|p| pats.iter().any(|q| q.matches(p)))
+                .collect::<Vec<bool>>())
+        }
         // Rust's own Unicode tables for the characters of a text (oracle for the model)
         "char_classes" => {
             let t = s(op, "text");
